@@ -109,6 +109,8 @@ def scenario(n_clients, with_bg, answer_order, chooser, sync_timeout=2.0, timeou
                         rec(("step", S.me(), "looptest", None))
                     elif co is A.AsyncResult.__call__.__code__ and ln == L_ready:
                         q = seq_by_res.get(id(frame.f_locals["self"]))
+                        if q is None:
+                            q = next((seq_of(i) for i, r0 in out["res_obj"].items() if r0 is frame.f_locals["self"]), None)
                         out["dispatch_time"][q] = S.now
                         out["dispatch_count"][q] = out["dispatch_count"].get(q, 0) + 1
                         rec(("step", S.me(), "dispatch", q))
@@ -149,8 +151,13 @@ def scenario(n_clients, with_bg, answer_order, chooser, sync_timeout=2.0, timeou
             return f
 
         def seq_of(i):
-            r = out["res_obj"].get(i)
-            return None if r is None else seq_by_res.get(id(r))
+            # read the number off the request frame itself (so that the peer does not depend on when the requester registers its callback)
+            want = "p%d" % i
+            for d in ch.out:
+                m = brine.load(d)
+                if m[0] == consts.MSG_REQUEST and m[2][0] == consts.HANDLE_PING and m[2][1] == (consts.LABEL_VALUE, (want,)):
+                    return m[1]
+            return None
         stop = {"bg": None}
 
         def bg():
@@ -223,6 +230,30 @@ def scenario(n_clients, with_bg, answer_order, chooser, sync_timeout=2.0, timeou
         return out
     finally:
         rpyc.lib.time, H.time = old
+
+
+def make_chooser(seed, stick, starve=True):
+    """seeded random scheduler: keeps the last thread with probability `stick`; in addition one randomly chosen victim thread is
+    kept off the CPU for a random window of steps (long preemptions inside a few-line window are what most races need)"""
+    import random
+    rnd = random.Random(seed)
+    last = [None]
+    plan = {"victim": None, "from": rnd.randrange(0, 120), "len": rnd.choice([15, 30, 60, 120]) if starve and rnd.random() < 0.7 else 0}
+
+    def chooser(en, step):
+        pool = en
+        if plan["len"] and plan["from"] <= step < plan["from"] + plan["len"]:
+            if plan["victim"] is None:
+                cands = [t for t in en if t != "P"]
+                plan["victim"] = rnd.choice(cands) if cands else None
+            rest = [t for t in en if t != plan["victim"]]
+            if rest:
+                pool = rest
+        if last[0] in pool and rnd.random() < stick:
+            return last[0]
+        last[0] = rnd.choice(pool)
+        return last[0]
+    return chooser
 
 
 def model_events(out, n_clients):
@@ -318,14 +349,7 @@ def run_plans(ctx, which):
     batch = []
     import random
     for nc, bg, order, seed, stick in plans:
-        rnd = random.Random(seed)
-        last = [None]
-
-        def chooser(en, step):
-            if last[0] in en and rnd.random() < stick:
-                return last[0]
-            last[0] = rnd.choice(en)
-            return last[0]
+        chooser = make_chooser(seed, stick)
         out = scenario(nc, bg, order, chooser)
         case = {"clients": nc, "bg": bg, "order": order, "seed": seed, "stick": stick}
         ctx.case(("run", nc, bg, tuple(order), seed), nontrivial=(nc + bg) >= 2, sample={"case": case, "results": out["results"], "late": out["late"], "clock_advances": len(out["clock"])})
@@ -347,14 +371,7 @@ def run_plans(ctx, which):
             bg = r.random() < 0.5
             order = list(range(nc)); r.shuffle(order)
             seed, stick, ea = r.randrange(10**9), r.choice([0.0, 0.2, 0.5]), r.randrange(0, nc)
-            rnd = random.Random(seed)
-            last = [None]
-
-            def chooser2(en, step):
-                if last[0] in en and rnd.random() < stick:
-                    return last[0]
-                last[0] = rnd.choice(en)
-                return last[0]
+            chooser2 = make_chooser(seed, stick)
             out = scenario(nc, bg, order, chooser2, sync_timeout=None, timeouts=[None] * nc, eof_after=ea)
             case = {"clients": nc, "bg": bg, "order": order, "seed": seed, "stick": stick, "eof_after": ea}
             ctx.case(("eof", nc, bg, tuple(order), seed, ea), nontrivial=True, sample={"case": case, "results": out["results"]})
@@ -383,13 +400,7 @@ def run(ctx):
 def replay(ctx, rep):
     import random
     cs = rep["case"]
-    rnd = random.Random(cs["seed"]); last = [None]
-
-    def chooser(en, step):
-        if last[0] in en and rnd.random() < cs["stick"]:
-            return last[0]
-        last[0] = rnd.choice(en)
-        return last[0]
+    chooser = make_chooser(cs["seed"], cs["stick"])
     if cs.get("eof_after") is not None:
         out = scenario(cs["clients"], cs["bg"], cs["order"], chooser, sync_timeout=None, timeouts=[None] * cs["clients"], eof_after=cs["eof_after"])
         oracle13_eof(ctx, cs, out, cs["clients"], cs["eof_after"])
